@@ -54,7 +54,7 @@ theorem atomizable_default (t : LTy) (h : atomizable t = true) :
   | withTop v ih =>
     obtain ⟨d, hd, wd, bd⟩ := ih (by simpa [atomizable] using h)
     exact ⟨(some d : Option (Val v)), by show ((lat v).dflt.map some) = _; rw [hd]; rfl, wd, bd⟩
-  | maxN _ | minN _ | maxB | minB | conflict => simp [atomizable] at h
+  | maxN _ | minN _ | maxI _ | minI _ | maxB | minB | conflict => simp [atomizable] at h
   | vec _ _ => simp [atomizable] at h
   | pair _ _ _ _ => simp [atomizable] at h
   | domPair _ _ _ _ => simp [atomizable] at h
